@@ -6,7 +6,13 @@ import (
 	"sync"
 )
 
-const ansi = "[\u001B\u009B][[\\]()#;?]*(?:(?:(?:[a-zA-Z\\d]*(?:;[a-zA-Z\\d]*)*)?" +
+// ansiOSC is an operating system command (window title and the like): free text, blanks included,
+// up to BEL or ST -- the general pattern below only knows BEL terminated ones made of letters,
+// digits and semicolons.
+const ansiOSC = "\u001B\\][^\u0007\u001B]*(?:\u0007|\u001B\\\\)"
+
+const ansi = "(?:" + ansiOSC + ")|" +
+	"[\u001B\u009B][[\\]()#;?]*(?:(?:(?:[a-zA-Z\\d]*(?:;[a-zA-Z\\d]*)*)?" +
 	"\u0007)|(?:(?:\\d{1,4}(?:;\\d{0,4})*)?[\\dA-PRZcf-ntqry=><~]))"
 
 var (
